@@ -175,7 +175,8 @@ def audit(prop_module, namespace):
     # output: "'KB.C10.foo' depends on axioms: [propext, ...]" or "... does not depend on any axioms"
     for m in re.finditer(r"'([\w.']+)' (?:depends on axioms: \[([^\]]*)\]|does not depend on any axioms)", out.replace("\n", " ")):
         ax = [a.strip() for a in (m.group(2) or "").split(",") if a.strip()]
-        details[m.group(1).split(".")[-1]] = ax
+        full = m.group(1)
+        details[full[len(namespace) + 1:] if full.startswith(namespace + ".") else full.split(".")[-1]] = ax
     discharged = 0
     for n in names:
         if n not in details:
